@@ -372,6 +372,8 @@ def check(spec, tier="quick", seed=1, replay=None):
             tie_broken.append("harness does not build against the current tree: " + hlog[-1500:].replace("\n", " | "))
 
     res = None
+    proplock = Lock("prop-" + name)
+    proplock.__enter__()
     if hrc == 0 and drc == 0:
         extra = []
         if replay:
@@ -390,6 +392,7 @@ def check(spec, tier="quick", seed=1, replay=None):
                 for k, v in (res3.get("distribution") or {}).items():
                     res["distribution"]["search:" + k] = v
 
+    proplock.__exit__()
     # 5. verdict
     known = known_findings(prop)
     known_hit = {}
